@@ -2,7 +2,7 @@
 """tools/keep_seed.py <ID> <name> <json-meta-string>: stores /tmp/wt/<ID>/{patch.diff, demo tests} under /verif/seeded/<ID>[-name]/ with meta.json"""
 import sys, os, json, shutil, subprocess
 pid, name, meta = sys.argv[1], sys.argv[2], json.loads(sys.argv[3])
-src = '/tmp/wt/%s' % (meta.pop('src', pid))
+src = os.environ.get('SEED_SRC', '/tmp/wt') + '/' + meta.pop('src', pid)
 dst = '/verif/seeded/%s' % (pid if name in ('', '-') else pid + '-' + name)
 os.makedirs(dst, exist_ok=True)
 shutil.copy(src + '/patch.diff', dst + '/patch.diff')
